@@ -196,6 +196,16 @@ fn search_parallel(args: &HiArgs, mode: SearchMode) -> anyhow::Result<bool> {
             let search_result = match searcher.search(&haystack) {
                 Ok(search_result) => search_result,
                 Err(err) => {
+                    // Print what was found before the search failed, as the
+                    // single threaded search has done by this point.
+                    if let Err(err) =
+                        bufwtr.print(searcher.printer().get_mut())
+                    {
+                        if err.kind() == std::io::ErrorKind::BrokenPipe {
+                            broken_pipe.store(true, Ordering::SeqCst);
+                            return WalkState::Quit;
+                        }
+                    }
                     err_message!("{}: {}", haystack.path().display(), err);
                     return WalkState::Continue;
                 }
